@@ -326,6 +326,23 @@ CMR_ERROR computeNetwork(
     }
   }
 
+  /* Each of the row labels r1,...,rk and column labels c1,...,cl must have been specified (exactly once). */
+  bool validLabels = true;
+  for (size_t i = 0; i < numForestEdges; ++i)
+    validLabels = validLabels && forestEdges[i] >= 0;
+  for (size_t i = 0; i < numCoforestEdges; ++i)
+    validLabels = validLabels && coforestEdges[i] >= 0;
+  if (!validLabels)
+  {
+    fprintf(stderr, "Input error: row/column labels of the edges must be r1,...,rk and c1,...,cl, each exactly once.\n");
+    free(coforestEdges);
+    free(forestEdges);
+    free(edgeElements);
+    CMR_CALL( CMRgraphFree(cmr, &digraph) );
+    CMR_CALL( CMRfreeEnvironment(&cmr) );
+    return CMR_ERROR_INPUT;
+  }
+
   CMR_CHRMAT* matrix = NULL;
   bool isCorrectForest = false;
 
